@@ -619,3 +619,36 @@ def run(ctx):
             dec[adt] = ctx.saw(b)
         r.check({"ValueBackpressure", "MapBackpressure"} <= set(dec), "DownlinkBackpressure/both-kinds", "-", "value and map backpressure strategies each name their command decoder", "DownlinkBackpressure implemented for %s" % sorted(dec))
 
+    with ctx.rule("C07.R13", "T1", "the read task marks its consumers flushed only when the flush ran to completion (or there is nobody to flush)", floor=2) as r:
+        # Events are fed into each consumer's framed writer; the flag that chooses between `wait` and `wait and flush` records whether a flush is still
+        # owed. immediate_or_join skips the flush when the next input is already there and says so (None). Marking the consumers flushed regardless
+        # leaves an event in their buffers until some later event happens to arrive - a registered consumer stops seeing updates.
+        fa = [c for c in rd.calls if c.name == "flush_all"]
+        if not fa:
+            raise AnchorMissing("read_task: flush_all")
+        flags = set()
+        for c in fa:
+            for d, l, sb in dom_guards(rd, c.block):
+                if l == "false" and op_place(rd.term(sb).get("discr")) is not None and rd.locals[rd.copy_root(rd.term(sb)["discr"])] == "bool":
+                    flags.add(rd.copy_root(rd.term(sb)["discr"]))
+        if len(flags) != 1:
+            raise AnchorMissing("read_task: the flag under which the consumers are flushed (found %d)" % len(flags))
+        fl = next(iter(flags))
+        heads = {c.block for c in fa}
+        n = 0
+        for df in rd.defs.get(fl, ()):
+            if df[0] != "assign" or describe_rvalue(rd, df[3]) != "True":
+                continue
+            if all(rd.dominates(df[1], h) for h in heads) and not any(rd.reaches(h, {df[1]}) for h in heads):
+                continue  # the initial value, before the loop
+            n += 1
+            g = dom_guards(rd, df[1])
+            ran = any(d.startswith("is_some(") and "immediate_or_join(" in d and l == "true" for d, l, _ in g) or any(d.startswith("disc(") and "immediate_or_join(" in d and l == "Some" for d, l, _ in g)
+            nobody = sum(1 for d, l, _ in g if d.startswith("is_empty(") and l == "true") >= 2
+            r.check(ran or nobody, "read_task/flushed:=true#%d/only-after-a-completed-flush" % n, rd.loc(df[2] if isinstance(df[2], int) and False else None) if False else where(rd),
+                    "the consumers are marked flushed %s" % ("when the flush reported completion" if ran else "when no consumer is left"),
+                    "the consumers are marked flushed although the flush may have been skipped (the next input was already available): an event fed to the registered consumers stays in their buffers until another event arrives")
+        if n < 2:
+            raise AnchorMissing("read_task: expected the two places that mark the consumers flushed inside the loop, found %d" % n)
+
+
